@@ -199,6 +199,28 @@ type interp struct {
 	nextBranch int
 	pendIf     *pathElem // set by an `if` for the arm that branch() is about to run
 	quiet      int       // > 0: the base of a store / delete / atomic operand is being evaluated: no load events
+	// additions for the leaf critical sections of additional mutexes (gen_eventbus); inert while watch is nil
+	watch     map[string]bool   // receiver fields whose every access is recorded as an `faccess` event (name=field, op=load/store)
+	watchSeen map[ast.Node]bool // the selector expressions recv.F (F any field) the interpreter has evaluated, by node
+	contElems map[pathElem]bool // path elements that stand for "the rest of the frame after an arm that returned"
+}
+
+// watchAccess records an access to field f of the receiver through the selector expression n.
+func (in *interp) watchAccess(n ast.Node, f, op string) {
+	if in.watchSeen != nil {
+		in.watchSeen[n] = true
+	}
+	if in.watch[f] {
+		in.emit(aevent{kind: "faccess", name: f, op: op})
+	}
+}
+
+// watchEscape: a watched field is bound to a local name, returned or handed on — later uses of the alias would not
+// be recorded as accesses, so the binding itself is recorded as something the interpreter cannot account for.
+func (in *interp) watchEscape(v aval, how string) {
+	if in.watch != nil && v.kind == "field" && in.watch[v.s] {
+		in.emit(aevent{kind: "other", name: "field " + v.s + " " + how + " (alias of watched state)"})
+	}
 }
 
 func (in *interp) note(format string, a ...any) {
@@ -364,6 +386,9 @@ func (in *interp) branch(fr *frame, list []ast.Stmt, guard string) (signal, aval
 		fr.condReturn = true
 		in.heldW = heldWBefore
 		in.path = append(in.path, pathElem{tag.id, 1 - tag.arm}) // until the enclosing branch / the frame ends
+		if in.contElems != nil {
+			in.contElems[pathElem{tag.id, 1 - tag.arm}] = true
+		}
 		// an EXIT PATH: the function returns here. Whatever it still holds beyond what it held on entry must be
 		// released by an unlock it has deferred; its own lock operations do not belong to the main path
 		for k, n := range in.held {
@@ -401,6 +426,7 @@ func (in *interp) stmt(fr *frame, st ast.Stmt) (signal, aval) {
 			if id, ok := l.(*ast.Ident); ok {
 				if id.Name != "_" {
 					fr.env[id.Name] = v
+					in.watchEscape(v, "bound to "+id.Name)
 				}
 			} else {
 				in.lvalue(fr, l)
@@ -418,6 +444,7 @@ func (in *interp) stmt(fr *frame, st ast.Stmt) (signal, aval) {
 							v = aval{kind: "list", list: &alist{origin: "fresh"}} // var xs []T
 						}
 						fr.env[n.Name] = v
+						in.watchEscape(v, "bound to "+n.Name)
 					}
 				}
 			}
@@ -472,6 +499,7 @@ func (in *interp) stmt(fr *frame, st ast.Stmt) (signal, aval) {
 		v := unknownVal
 		for i, r := range x.Results {
 			rv := in.eval(fr, r)
+			in.watchEscape(rv, "returned")
 			if i == 0 {
 				v = rv
 			}
@@ -664,6 +692,8 @@ func (in *interp) lvalue(fr *frame, e ast.Expr) {
 		if b := in.eval(fr, se.X); b.kind == "recv" && se.Sel.Name == in.listField {
 			in.emit(aevent{kind: "hwrite", name: se.Sel.Name})
 			return
+		} else if b.kind == "recv" && (in.watch != nil || in.watchSeen != nil) {
+			in.watchAccess(se, se.Sel.Name, "store")
 		} else if b.kind == "recv" && in.track != nil {
 			switch {
 			case in.track.maps[se.Sel.Name]:
@@ -764,6 +794,9 @@ func (in *interp) eval(fr *frame, e ast.Expr) aval {
 		b := in.eval(fr, x.X)
 		switch b.kind {
 		case "recv":
+			if in.watch != nil || in.watchSeen != nil {
+				in.watchAccess(x, x.Sel.Name, "load")
+			}
 			if in.track != nil && in.quiet == 0 {
 				switch {
 				case in.track.maps[x.Sel.Name]:
@@ -868,6 +901,9 @@ func (in *interp) eval(fr *frame, e ast.Expr) aval {
 		}
 		bv := in.evalRead(fr, x.X, "other")
 		in.trackMapRead(bv, "index")
+		if in.watch != nil && bv.kind == "field" && in.watch[bv.s] {
+			return unknownVal // an element of a watched field, not the field
+		}
 		return bv
 	case *ast.SliceExpr:
 		return in.evalRead(fr, x.X, "other")
